@@ -24,6 +24,42 @@ CHECKS = {
          "Each field of each interpreted ME/MB layout takes every value (or edge + random values when wider than 12 bits) with all other bits random, under DF17, DF18 x CF 0..7, DF20, DF21; single-one payloads locate each bit's owner; the BDS dispatch byte is swept.",
          "Trusts the DO-260B / ICAO 9871 layouts quoted in refdec.rs; type codes 1-4, 19, 28 and altitude codes are decided by C08, C07, C09, C06.", "3 C10"),
 }
+
+CHECKS.update({
+ "C01": ("exploration", "random + structured byte strings, field sweeps, pair enumeration; crash / allocation oracle (catch_unwind, counting allocator, watchdog)",
+         "Every buffer length 0..=32 with uniform and structured contents, every value of every narrow ME field, every 13-bit code, all ordered pairs of a pool of position reports; each accepted frame is rendered, its velocity computed, paired in both orders and fed to a long-lived tracker with hostile receiver positions/ranges. No panic, bounded allocation per decode+render.",
+         "Absence of a crash on 2^112 frames cannot be established; a hang is reported as inconclusive (exit 2) by a 20 s watchdog.", "3 C01"),
+ "C02": ("exploration", "exhaustive DF x length grid + exhaustive type-31 reserved/version grid + generated frames; acceptance predicate + prefix metamorphic relation",
+         "All 32 DF codes at all lengths 0..=32, the complete subtype x version x reserved-group grid of type 31, structured frames truncated / exact / over-long; accepted iff the statement says so, right variant, checksum over exactly the frame, tail bytes without influence.",
+         "ME 13-14 != 0 in a surface operational status is left open (DO-260B reserves, library ignores).", "3 C02"),
+ "C03": ("exploration", "differential vs bitwise polynomial division; constructed-parity frames; exhaustive error-pattern enumeration on base frames",
+         "crc == remainder mod 0x1FFF409 on random, single-byte and double-byte frames; the three meanings on constructed frames (all 128 II codes); all error patterns of weight <= 3 (<= 5 thorough) and all bursts <= 24 bits with bounded interior weight (all 2^22 interiors thorough) on 10 valid base frames never give checksum 0.",
+         "Error detection is enumerated over patterns, not over all base frames; patterns that turn the frame into a 56-bit or rejected frame are excluded.", "3 C03"),
+ "C05": ("exploration", "round trip through a reference CPR encoder (inverse), exact integer reference decoder (differential), exhaustive zone-latitude probes",
+         "True positions over the whole sphere (poles, equator, antimeridian, every NL transition) with displacements <= 3 NM in both orders decode to within the quantisation error and re-encode to the second report; raw pairs are rejected when inconsistent; every reachable zone latitude of both parities is probed for its longitude-zone count.",
+         "NL reference = closed formula; recovered latitudes within 1e-7 deg of a transition are don't-care.", "3 C05"),
+ "C11": ("exploration", "generated frames vs. independent template renderer (differential), validated against the 45 pinned strings of the test suite",
+         "Every format/type/subtype with the renderer's branch conditions targeted; Display must equal the reference templates instantiated with the decoded frame's own fields; non-empty except DF19.",
+         "The templates are those pinned by the README/test suite as re-implemented in render.rs; field correctness is C04-C10.", "3 C11"),
+ "C12": ("exploration", "proptest histories (vec of ops + interpreter) vs reference tracker model; isolation metamorphic relation",
+         "Histories of DF17/DF18 squitters of every payload kind from 1-4 interleaved aircraft, non-squitter formats with the same addresses, waits and expiry; added flag, key set, message counts compared after every op; record(H) == record(H restricted to the aircraft).",
+         "Frames are real bytes decoded by the library; histories up to 40 ops.", "4 C12"),
+ "C13": ("exploration", "proptest histories vs reference model with reference great-circle distance and CPR encoder",
+         "Consistent flights, jumps around 100 km, positions at 0.99/1.01 x range, garbage CPR, repeated reports, four receiver sites; publish/clear decision, stored reports and distance compared after every position report.",
+         "get_position is the pairing function (decided by C05), either argument order accepted; thresholds within 1e-6 are don't-care.", "4 C13"),
+ "C14": ("exploration", "proptest histories; latest-wins model + invariants after every op",
+         "Callsign/heading/speed/rate latest-wins; distance<=>position, all_position, details, track order, to_string checked for every record after every op.",
+         "Lenient: entries wiped by a clear may be absent from the track; consecutive duplicate entries collapsed.", "4 C14"),
+ "C15": ("exploration", "proptest histories with a back-dating hook; model with exact ages",
+         "Advance/Prune ops with ages in 0.5 s steps on both sides of T; surviving key set, untouched survivors, re-added aircraft start empty.",
+         "Uses the verif_hooks feature (Airplanes::verif_backdate); real elapsed time per case must stay below 0.3 s or the case is inconclusive.", "4 C15"),
+ "C19": ("fault_enumeration", "exhaustive injection of transient read errors and short reads over the recorded call trace + proptest schedules; slice decode differential",
+         "For frames of every accepted class and fragment sizes 64/1/2: 1-3 consecutive Interrupted before every read call and all pairs of injection points; random schedules; from_reader == from_bytes and repeatability.",
+         "The scripted reader consumes nothing on Interrupted (std semantics); hard I/O errors are out of scope.", "3 C19"),
+ "C20": ("exploration", "differential std process vs alloc-only child process on generated frames and histories; serde JSON round trip",
+         "Byte-identical transcripts (decode, render, velocity, pairing, full tracker dump after every step) between the std build and the libraries built with default-features=false, features=[alloc]; serde round trip of frames and tracker states incl. continued behaviour.",
+         "std-only time stamps are stripped from the transcript; serde_json with float_roundtrip is the only format exercised.", "3 C20"),
+})
 NOT_YET = {}
 ALL = [f"C{i:02d}" for i in range(1, 21)]
 
